@@ -194,7 +194,11 @@ func runRound(seed int64, transport string, writers, writes int, delays bool) ro
 				smu.Unlock()
 				rec := writeRec{Writer: w, Seq: s, Len: len(p)}
 				rec.Call = atomic.AddInt64(&clock, 1)
-				nw, err := hc.Write(p)
+				arg := append([]byte{}, p...) // the writer's own buffer, reused as soon as Write has returned
+				nw, err := hc.Write(arg)
+				for k := range arg {
+					arg[k] = 0xEE
+				}
 				rec.Return = atomic.AddInt64(&clock, 1)
 				_ = nw
 				_ = err
